@@ -99,7 +99,7 @@ func genLiteral(r *h.Rand) string {
 	case 10:
 		return r.Pick([]string{"true", "false", "nil"})
 	}
-	return r.Pick([]string{"-1", "+2", "-3.25", ".5", "7i", "1_0", "089", "0x"})
+	return r.Pick([]string{"-1", "+2", "-3.25", ".5", "7i", "1_0", "089", "0x", "-٣", "+１", "-४.5", "٣"})
 }
 
 func genOperand(r *h.Rand, depth int) string {
@@ -339,7 +339,7 @@ func genTemplateSrc(r *h.Rand, d delims, depth int) string {
 	return sb.String()
 }
 
-var noiseBytes = []string{"\x00", "\xff", "\xc3", "\xe2\x82", "\xf0\x9f\x98\x80", "_é", "_", "é", "&", "&&", "|", "||", ".", "..", "'", "\"", "`", "\\", "(", ")", "[", "]", "{{", "}}", "{*", "*}", "- ", " -", "-", "+", "1", "0x", "e", "\n", ":", "=", ":=", "!", "?", ",", ";"}
+var noiseBytes = []string{"٣", "-１", "\x00", "\xff", "\xc3", "\xe2\x82", "\xf0\x9f\x98\x80", "_é", "_", "é", "&", "&&", "|", "||", ".", "..", "'", "\"", "`", "\\", "(", ")", "[", "]", "{{", "}}", "{*", "*}", "- ", " -", "-", "+", "1", "0x", "e", "\n", ":", "=", ":=", "!", "?", ",", ";"}
 
 // mutate: a malformed variant of a valid source
 func mutate(r *h.Rand, s string) string {
